@@ -13,7 +13,7 @@
 (*     the chunked basecase return exactly u*v in un+vn limbs for every    *)
 (*     operand.                                                            *)
 (***************************************************************************)
-EXTENDS Naturals, Integers, Sequences, TLC
+EXTENDS Naturals, Integers, Sequences, TLC, HookPre
 CONSTANTS KARA, TOOM3, TOOM4, TOOM8H, FFTFULL, MAXUN,       \* MUL_* thresholds, MUL_BASECASE_MAX_UN
           SQRBASE, SQRKARA, SQRTOOM3, SQRTOOM4, SQRTOOM8, SQRFFT,
           KARALIMIT, TOOM3LIMIT,                             \* *_THRESHOLD_LIMIT (stack buffers)
@@ -58,22 +58,11 @@ FFTEnter(n1, n2) ==        \* ASSERT(j1 + j2 - 1 > 2*n) with depth 6, w 1
        j1 == (n1 * 64 - 1) \div bits + 1   j2 == (n2 * 64 - 1) \div bits + 1
    IN  j1 + j2 - 1 > 2 * 64
 CalleePre(lbl, un, vn) ==
-  CASE lbl = "toom42" -> LET k == (un + 3) \div 4 IN vn > k /\ vn <= 2 * k /\ un >= 20
-    [] lbl = "toom32" -> LET k == (un + 2) \div 3 IN vn > k /\ un >= 20
-    [] lbl = "toom3"  -> LET k == (un + 2) \div 3 IN vn > 2 * k /\ un >= 20
-    [] lbl = "toom4"  -> vn > 3 * ((un + 3) \div 4)
-    [] lbl = "toom53" -> vn > 2 * ((un + 4) \div 5)
-    [] lbl \in {"toom8h", "toom8h_n"} -> un >= vn /\ vn >= 86 /\ 4 * un <= 13 * vn
-    [] lbl = "toom3_n" -> un >= 17
-    [] lbl = "toom4_n" -> un >= 4
-    [] lbl = "kara_n" -> un >= 2 /\ TOOM3 <= TOOM3LIMIT      \* fixed-size stack workspace
+  CASE lbl = "kara_n" -> un >= 2 /\ TOOM3 <= TOOM3LIMIT                 \* fixed-size stack workspace
     [] lbl \in {"fft", "fft_n"} -> FFTEnter(un, vn)
     [] lbl = "basecase_chunked" -> KARA <= KARALIMIT /\ vn < KARA     \* tp[MUL_KARATSUBA_THRESHOLD_LIMIT] holds vn limbs
-    [] lbl = "sqr_kara" -> un >= 2
-    [] lbl = "sqr_toom3" -> un >= 17
-    [] lbl = "sqr_toom8" -> un >= 86 \/ TRUE
     [] lbl = "sqr_fft" -> FFTEnter(un, un)
-    [] OTHER -> TRUE
+    [] OTHER -> TPre(lbl, un, vn)
 
 (* the fallback path: sizes of the pieces stay positive and the workspace allocated once up front
    ((vn >= KARA ? vn : un) + vn limbs) is enough for every later product *)
